@@ -916,3 +916,48 @@ pub fn adjacent_family(full: bool) -> Vec<Seq> {
     out.dedup();
     out
 }
+
+/// Tail family: sequences of up to three tokens of the kind the exhaustiveness and depth analyses
+/// scan at the end of a concatenation - zero-or-more and tree wildcards, separators and ranged
+/// repetitions of wildcard-only bodies with every combination of small bounds, flat and nested -
+/// alone and after a literal prefix. This is the state space of the arithmetic on ranges that two
+/// neighbouring or nested repetitions perform.
+pub fn tail_family(full: bool) -> Vec<Seq> {
+    let bounds: Vec<&str> = if full { vec![":0,1", ":1,2", ":0,3", ":2,2", ":0,", ":2,", ":1", ""] } else { vec![":0,1", ":1,2", ":0,3", ":2,2", ":0,"] };
+    let mut toks: Vec<String> = vec!["*".into(), "**".into(), "/".into(), "a".into()];
+    for body in ["*/", "/*", "*", "a/"] {
+        for b in &bounds {
+            toks.push(format!("<{}{}>", body, b));
+        }
+    }
+    for b1 in &bounds {
+        for b2 in &bounds {
+            toks.push(format!("<<*/{}>{}>", b1, b2));
+        }
+    }
+    toks.push("{*/,a/}".into());
+    toks.push("{*/,**/}".into());
+    let mut out = vec![];
+    let mut push = |text: String| {
+        if let Ok(ast) = crate::syntax::parse(&text) {
+            out.push(strip(&ast));
+        }
+    };
+    for t1 in &toks {
+        push(t1.clone());
+        push(format!("a/{}", t1));
+        for t2 in &toks {
+            push(format!("{}{}", t1, t2));
+            push(format!("a/{}{}", t1, t2));
+            if !full && (t1.starts_with("<<") || t2.starts_with("<<")) {
+                continue;
+            }
+            for t3 in ["*", "/", "**", "a", "<*/:0,1>", "<*/:1,2>"] {
+                push(format!("{}{}{}", t1, t2, t3));
+            }
+        }
+    }
+    out.sort();
+    out.dedup();
+    out
+}
